@@ -351,3 +351,21 @@ Definition g_cache_fill_gap_clip {KEYS : Type} (self_sink : list ivl) (self_key_
     (fun '(self_sink, self_key_validated) =>
       (self_sink, self_key_validated))
     (self_sink, self_key_validated) (source_fetch (Some gap_start) (Some gap_end) false).
+
+(* calgebra/cache.py: CachedTimeline._evict_expired *)
+Definition g_cache_evict_expired (fuel : nat) (clock_now : Z) (self_expiry_heap : list hent) (self_cover : list cov) (self_sink : list ivl) : res (list hent * list cov * list ivl) :=
+  let now_ := (clock_now) in
+  iter_while fuel
+    (fun '(self_expiry_heap, self_sink, self_cover) => ((nonempty self_expiry_heap) && ((fst (fst (py_index (0, 0%N, mkCov 0 0 0) self_expiry_heap 0))) <=? now_)))
+    (fun '(self_expiry_heap, self_sink, self_cover) =>
+      let '(_, _, cover_) := (hd (0, 0%N, mkCov 0 0 0) self_expiry_heap) in
+      let self_expiry_heap := (tl self_expiry_heap) in
+      if (existsb (cov_eqb cover_) self_cover) then
+        let self_cover := (cov_remove cover_ self_cover) in
+        let self_sink := (g_cache_purge_sink self_sink (cv_s cover_) (cv_e cover_)) in
+        (SCont (self_expiry_heap, self_sink, self_cover))
+      else
+        (SCont (self_expiry_heap, self_sink, self_cover)))
+    (fun '(self_expiry_heap, self_sink, self_cover) =>
+      (RDone (self_expiry_heap, self_cover, self_sink)))
+    (self_expiry_heap, self_sink, self_cover).
